@@ -1199,6 +1199,7 @@ pub enum Directed {
     Stack { n: usize, op: u8, split: bool },
     Nesting { depth: usize, kind: usize, with_stems: bool },
     Blend { n: usize, base: usize, vsindex: bool, twice: bool },
+    Reserved { a: i32, b: i32, op2: u8, fill: usize },
 }
 
 /// Font-level parameters the glyph recipes depend on.
@@ -1277,6 +1278,17 @@ pub fn directed_recipes(fl: &Flavor) -> Vec<Directed> {
             v.push(Directed::StemCount { h: t - vst, v: *vst, pattern, op_mode: (q + 2 * w) % 3, width: (q + w) % 2 == 0 });
         }
     }
+    // vstem-heavy: 8 hstems and 32..=48 vstems (total 40..=56), explicit and implicit (mask operands)
+    for t in 40..=56usize {
+        v.push(Directed::StemCount { h: 8, v: t - 8, pattern: [0xFFu8, 0xAA, 0x55][t % 3], op_mode: t % 3, width: t % 2 == 0 });
+    }
+    // (C') reserved Type 2 operators that address the stack / the transient array by operand value
+    // (put, get, index, roll, and friends) at and beyond their spec limits: must be error values
+    for (q, (a, b)) in [(31, 0), (32, 0), (33, 1), (-1, 2), (0x7fff, 3), (47, 47), (48, 48), (512, 1), (513, -1), (-32768, 32767)].iter().enumerate() {
+        for op2 in [20u8, 21, 29, 30, 28, 18, 27] {
+            v.push(Directed::Reserved { a: *a, b: *b, op2, fill: [0usize, 46, 510][q % 3] });
+        }
+    }
     // (C) operand-stack depth at the Type 2 limit (48) and at the implementation limit (513)
     for n in [46usize, 47, 48, 49, 50, 95, 96, 97, 192, 193, 510, 511, 512, 513, 514, 515] {
         for (q, op) in [5u8, 8, 1, 18, 19, 20, 21, 6, 7, 24, 25, 26, 27, 30, 31, 10, 16].iter().enumerate() {
@@ -1340,6 +1352,22 @@ pub fn directed_font(fl: &Flavor, recipes: &[Directed], chunk: usize) -> (Vec<u8
             Directed::Stack { n, op, split } => stack_glyph(&mut acc, *n, *op, *split, fl.n_regions),
             Directed::Nesting { depth, kind, with_stems } => nesting_glyph(&mut acc, *depth, *kind, *with_stems),
             Directed::Blend { n, base, vsindex, twice } => blend_glyph(&mut acc, *n, fl.n_regions, *base, *vsindex, *twice),
+            Directed::Reserved { a, b, op2, fill } => {
+                let mut out = vec![];
+                cs_num(&mut out, 0);
+                cs_num(&mut out, 0);
+                out.push(21);
+                for i in 0..*fill {
+                    cs_num(&mut out, (i % 3) as i32);
+                }
+                cs_num(&mut out, *a);
+                cs_num(&mut out, *b);
+                out.push(12);
+                out.push(*op2);
+                out.push(6);
+                finish_glyph(&mut out, fl.cff2);
+                out
+            }
         });
     }
     let axis_count = if fl.cff2 { [1u16, 2, 3][chunk % 3] } else { 0 };
@@ -1356,6 +1384,7 @@ fn directed_kind(r: &Directed) -> &'static str {
         Directed::Stack { .. } => "operand-stack",
         Directed::Nesting { .. } => "subr-nesting",
         Directed::Blend { .. } => "blend-operands",
+        Directed::Reserved { .. } => "reserved-stack-operators",
     }
 }
 
